@@ -546,6 +546,147 @@ fn describe_region(r: &Region) -> String {
 }
 
 // ------------------------------------------------------------------------------------------------
+// the async twins of the indexed queries (registered under C16: "the async reader yields the same
+// … query results … as the sync reader")
+// ------------------------------------------------------------------------------------------------
+
+#[derive(Clone, Debug, Serialize, Deserialize)]
+pub struct AsyncQueryCase {
+    pub case: Case,
+    pub script: crate::io_adv::async_adv::PollScript,
+    pub workers: u8,
+}
+
+pub fn async_query_strategy(tier: Tier) -> BoxedStrategy<AsyncQueryCase> {
+    let script = prop_oneof![
+        1 => Just(crate::io_adv::async_adv::PollScript { steps: vec![] }),
+        2 => Just(crate::io_adv::async_adv::PollScript { steps: vec![0, 1] }),
+        3 => proptest::collection::vec(prop_oneof![2 => Just(0u32), 3 => 1u32..8, 2 => 1u32..700, 1 => Just(70_000u32)], 1..7).prop_map(|steps| crate::io_adv::async_adv::PollScript { steps }),
+    ];
+    (files_strategy(tier), script, 1u8..=4).prop_map(|(case, script, workers)| AsyncQueryCase { case, script, workers }).boxed()
+}
+
+/// Sync query (fresh reader) vs async query (fresh async reader over a scripted source) for every
+/// region of the case, with the index built in memory by the sync indexer.
+pub fn check_async_queries(c: &AsyncQueryCase) -> Verdict {
+    use crate::io_adv::async_adv::AdvAsyncRead;
+    use futures::TryStreamExt;
+    let cc = &c.case;
+    let key = key_of(c);
+    let mut tmp = TmpFiles(Vec::new());
+    let is_vcf_like = !matches!(cc.kind, Kind::Bai | Kind::CsiBam);
+    let (sorted, truth): (Vec<RecSpec>, Vec<Truth>) = if is_vcf_like { sorted::vcf_truth(&cc.set) } else { sorted::bam_truth(&cc.set) };
+    let data = match cc.kind {
+        Kind::Bai | Kind::CsiBam => Data::Bam {
+            bytes: sorted::write_bam(&cc.set).map_err(|e| e1("c16.query.write-error", format!("writing the BAM failed: {e}")))?,
+            header: sorted::sam_header(&cc.set).map_err(|e| e1("c16.query.write-error", e))?,
+        },
+        Kind::Tabix => Data::Vcf { bytes: sorted::write_vcf_gz(&cc.set, cc.version).map_err(|e| e1("c16.query.write-error", format!("writing the VCF failed: {e}")))?, header: sorted::vcf_header(&cc.set, cc.version) },
+        Kind::CsiBcf | Kind::CsiBcfCustom => Data::Bcf { bytes: sorted::write_bcf(&cc.set, cc.version).map_err(|e| e1("c16.query.write-error", format!("writing the BCF failed: {e}")))? },
+    };
+    let ext = match cc.kind {
+        Kind::Bai | Kind::CsiBam => "bam",
+        Kind::Tabix => "vcf.gz",
+        _ => "bcf",
+    };
+    let path = tmp.path(key, ext);
+    std::fs::write(&path, data.bytes()).map_err(|e| e1("c04.tmp-io", format!("cannot write {}: {e}", path.display())))?;
+    let g = cc.set.geom;
+    // an index the sync indexer cannot build is C04's subject, not this relation's
+    let ix: Ix = match match cc.kind {
+        Kind::Bai => bam::fs::index(&path).map(Ix::Linear),
+        Kind::CsiBcf => bcf::fs::index(&path).map(Ix::Binned),
+        Kind::Tabix => vcf::fs::index(&path).map(Ix::Linear),
+        Kind::CsiBam => index_bam_custom(&path, g).map(Ix::Binned),
+        Kind::CsiBcfCustom => index_bcf_custom(&path, g).map(Ix::Binned),
+    } {
+        Ok(ix) => ix,
+        Err(_) => return Ok(Pass::new(false, key).label("index-not-built(sync)")),
+    };
+    let span_list: Vec<(u64, u64)> = truth.iter().filter_map(|t| t.span).collect();
+    let bytes = std::sync::Arc::new(data.bytes().to_vec());
+    let workers = std::num::NonZero::new(c.workers.clamp(1, 8) as usize).unwrap();
+    let rt = crate::drivers::asyncs::runtime();
+    let mut fails = Fails::new();
+    let (mut n, mut nonempty, mut pend) = (0u64, 0u64, 0u64);
+    let name = kind_name(cc.kind);
+    for spec in &cc.regions {
+        let region = spec.resolve(&cc.set, &sorted, &span_list);
+        let reg = noodles_region(&region);
+        let sync_ans: Result<Vec<String>, std::io::ErrorKind> = data.query(&ix, &region).map_err(|e| e.kind());
+        let src = AdvAsyncRead::new(bytes.clone(), &c.script);
+        let stats = src.stats.clone();
+        let async_ans: Result<Vec<String>, std::io::ErrorKind> = rt
+            .block_on(async {
+                match &data {
+                    Data::Bam { header, .. } => {
+                        let mut r = bam::r#async::io::Reader::from(bgzf::r#async::io::reader::Builder::default().set_worker_count(workers).build_from_reader(src));
+                        r.read_header().await?;
+                        let q = match &ix {
+                            Ix::Linear(i) => r.query(header, i, &reg)?,
+                            Ix::Binned(i) => r.query(header, i, &reg)?,
+                        };
+                        let mut recs = std::pin::pin!(q.records());
+                        let mut ids = Vec::new();
+                        while let Some(rec) = recs.try_next().await? {
+                            ids.push(bam_id(&rec));
+                        }
+                        Ok::<_, std::io::Error>(ids)
+                    }
+                    Data::Vcf { .. } => {
+                        let mut r = vcf::r#async::io::Reader::new(bgzf::r#async::io::reader::Builder::default().set_worker_count(workers).build_from_reader(src));
+                        let h = r.read_header().await?;
+                        let q = match &ix {
+                            Ix::Linear(i) => r.query(&h, i, &reg)?,
+                            Ix::Binned(i) => r.query(&h, i, &reg)?,
+                        };
+                        let mut recs = std::pin::pin!(q.records());
+                        let mut ids = Vec::new();
+                        while let Some(rec) = recs.try_next().await? {
+                            ids.push(rec.ids().as_ref().to_string());
+                        }
+                        Ok(ids)
+                    }
+                    Data::Bcf { .. } => {
+                        let mut r = bcf::r#async::io::Reader::from(bgzf::r#async::io::reader::Builder::default().set_worker_count(workers).build_from_reader(src));
+                        let h = r.read_header().await?;
+                        let q = match &ix {
+                            Ix::Linear(i) => r.query(&h, i, &reg)?,
+                            Ix::Binned(i) => r.query(&h, i, &reg)?,
+                        };
+                        let mut recs = std::pin::pin!(q.records());
+                        let mut ids = Vec::new();
+                        while let Some(rec) = recs.try_next().await? {
+                            ids.push(String::from_utf8_lossy(rec.ids().as_ref()).to_string());
+                        }
+                        Ok(ids)
+                    }
+                }
+            })
+            .map_err(|e| e.kind());
+        n += 1;
+        pend += stats.lock().map(|s| s.pendings).unwrap_or(0);
+        if sync_ans.as_ref().map(|v| !v.is_empty()).unwrap_or(false) {
+            nonempty += 1;
+        }
+        // whether the query succeeds and what it returns is compared; error kinds are not (C16)
+        let same = match (&sync_ans, &async_ans) {
+            (Ok(a), Ok(b)) => a == b,
+            (Err(_), Err(_)) => true,
+            _ => false,
+        };
+        if !same {
+            fails.push(
+                format!("c16.query.differs:{name}"),
+                format!("{name} ({},{}): query {}: sync reader {}, async reader {}", g.min_shift, g.depth, describe_region(&region), trunc(&format!("{sync_ans:?}"), 300), trunc(&format!("{async_ans:?}"), 300)),
+            );
+            break;
+        }
+    }
+    fails.finish(Pass::new(nonempty > 0 && n > 0, key).evals(n.max(1)).label(name).label_if(pend > 0, "pending-delivered").label_if(nonempty > 0, "non-empty-answer"))
+}
+
+// ------------------------------------------------------------------------------------------------
 // files
 // ------------------------------------------------------------------------------------------------
 
